@@ -76,8 +76,7 @@ class Ctx:
         """Vacuity control: rule must have produced at least `minimum` obligations."""
         n = sum(1 for o in self.obs if o.rule == rule)
         self.floors.append((rule, minimum, n, what))
-        if n < minimum:
-            raise AnalysisError(f"rule {rule}: only {n} {what} found, confirmed floor is {minimum}")
+        # evaluated in finish(): a failing obligation (VIOLATION) takes precedence over a missed floor
 
     def note(self, text: str) -> None:
         self.notes.append(text)
@@ -128,6 +127,10 @@ class Ctx:
         if new:
             print(f"VIOLATION property={self.prop} replay={replay}")
             return 1
+        for rule, minimum, n, what in self.floors:
+            if n < minimum:
+                raise AnalysisError(f"rule {rule}: only {n} {what} found, confirmed floor is {minimum} "
+                                    f"(vacuity control: the rule no longer finds the constructs it was confirmed on)")
         return 0
 
     def _write_evidence(self, n_new: int, n_known: int, rules: list) -> None:
